@@ -181,6 +181,29 @@ class Heap:
         self.set(hk, [z3.Store(a, ref, z3.K(kty.comps()[0], z3.BoolVal(False)))])
         sk = self.dict_size_key()
         self.set(sk, [z3.Store(self.get(sk)[0], ref, 0)])
+    def odict_klen(self, ref):
+        return z3.Select(self.get(self.dict_klen_key())[0], ref)
+    def odict_kat(self, kty, ref, k):
+        return z3.Select(z3.Select(self.get(self.dict_kat_key(kty))[0], ref), k)
+    def odict_facts(self, kty, ref):
+        """an ordered dict's key list enumerates exactly its keys, each once (insertion order)"""
+        k, j = z3.Ints('ok_ oj_')
+        n = self.odict_klen(ref)
+        kat = z3.Select(self.get(self.dict_kat_key(kty))[0], ref)
+        has = z3.Select(self.get(self.dict_has_key(kty))[0], ref)
+        idx = z3.Function('odict_idx_%s' % reg_sort(kty.comps()[0]), I, kty.comps()[0], I)
+        x = z3.Const('ox_', kty.comps()[0])
+        def fa(vs, body, pats):
+            from .speceval import _has_binder
+            if any(_has_binder(p) for p in pats):
+                return z3.ForAll(vs, body)
+            try:
+                return z3.ForAll(vs, body, patterns=pats)
+            except z3.Z3Exception:
+                return z3.ForAll(vs, body)
+        return [n >= 0, n == self.dict_size(ref),
+                fa([k], z3.Implies(z3.And(0 <= k, k < n), z3.And(z3.Select(has, z3.Select(kat, k)), idx(ref, z3.Select(kat, k)) == k)), [z3.Select(kat, k)]),
+                fa([x], z3.Implies(z3.Select(has, x), z3.And(0 <= idx(ref, x), idx(ref, x) < n, z3.Select(kat, idx(ref, x)) == x)), [idx(ref, x)])]
     # ordered dict key list
     def dict_klen_key(self):
         key = ('dict', 'klen')
